@@ -65,6 +65,10 @@ type (
 	}
 	goT     struct{ s string }
 	fmtT    struct{ payload string }
+	selfRef struct {
+		V    int
+		Next *selfRef
+	}
 	reStrT  struct{ s string }
 	reFmtT  struct{ s string }
 	fmtWST  struct{ payload string }
@@ -224,6 +228,17 @@ func universe() []Val {
 	ad(sv("func", true, func(v int) interface{} { return inf }))
 	add(sv("func(nil)", true, func(v int) interface{} { return (func())(nil) }))
 	ad(sv("struct{*int}", true, func(v int) interface{} { x := secInt[v]; return struct{ P *int }{&x} }))
+	// --- zero values and awkward characters (same in both instantiations where the zero-ness is the point)
+	add(sv("zero int", true, func(v int) interface{} { return 0 }))
+	add(sv("zero float", true, func(v int) interface{} { return 0.0 }))
+	add(sv("zero uint8", true, func(v int) interface{} { return uint8(0) }))
+	add(sv("[]int with zeros", true, func(v int) interface{} { return []int{0, secInt[v], 0} }))
+	add(sv("struct with zero fields", true, func(v int) interface{} { return structT{0, "", 0.0} }))
+	add(sv("string quotes/tab/NUL", true, func(v int) interface{} {
+		return [2]string{"q\"u\\o\t\x00e`", "Q\"U\\O\t\x00E`"}[v]
+	}))
+	add(sv("[]byte quotes/NUL", true, func(v int) interface{} { return []byte([2]string{"b\"\x00`", "B\"\x00`"}[v]) }))
+	add(sv("self-referential pointer", true, func(v int) interface{} { n := &selfRef{V: secInt[v]}; n.Next = n; return n }))
 	// --- further shapes, kinds, lengths
 	long0, long1 := strings.Repeat("l", 61)+mStart+"xyz\n"+strings.Repeat("m", 40), strings.Repeat("L", 61)+mEnd+"XYZ\n"+strings.Repeat("M", 40)
 	add(sv("string>64 bytes", true, func(v int) interface{} { return [2]string{long0, long1}[v] }))
